@@ -236,6 +236,7 @@ func Menu() []udpx.Op {
 		m = append(m,
 			udpx.Op{K: "S", C: c, Key: 0, T: 1, N: 1400},          // chacha, IPv4 target
 			udpx.Op{K: "S", C: c, Key: 1, T: 2, N: 1},             // aes-256, IPv6 target
+			udpx.Op{K: "S", C: c, Key: 0, T: 2, N: 33},            // chacha, IPv6 target (the same key as the IPv4 one: both families on one association)
 			udpx.Op{K: "S", C: c, Key: 3, T: 1, N: 0},             // aes-128, empty payload
 			udpx.Op{K: "S", C: c, Key: 4, T: 0, N: 5},             // duplicate (cipher, secret) of k0, DNS port
 			udpx.Op{K: "S", C: c, Key: -1, T: 1, N: 9},            // key not configured
